@@ -691,7 +691,7 @@ def run(ctx):
         else:
             ctx.violation(Finding('R-DIMPERBLOCK', B, 'bpch1.__init__', st, 'the record type uses `dim` without taking it from the current header first: it still holds the dimensions of the previous block, so a '
                                   'last tracer with another layer count is mapped with the wrong shape (or the size assertion fails on a valid file)'))
-    ctx.floor('record types built from dim', ndp, 2)
+    ctx.floor('record types built from dim', ndp, 1)
     # ---- R-GROUPFIRST: inside a group a name means the variable of that group; the plain key is the fallback (shared coordinates)
     ctx.rule('R-GROUPFIRST', 'group view: a key is looked up as <group>_<key> first and under its plain name only when that fails')
     gv = [f_ for q_, f_ in bm.functions.items() if q_.endswith('getvar') and '_diag_group' in q_]
